@@ -130,6 +130,7 @@ func Profile(name string) Knobs {
 	switch name {
 	case "tight": // C01
 		k.Fill, k.PTerminating, k.PBinding = 0.7, 0.3, 0.15
+		k.PFaults, k.PGang = 0.5, 0.45 // commits that fail part-way: a BindRequest of a later gang member cannot be created
 		k.PSmallPods = 0.4
 		k.PExtRes = 0.4
 		k.KindWeights = map[string]int{"cpu": 3, "besteffort": 1, "whole": 5, "fraction": 3, "gpumem": 2, "multifrac": 1, "mig": 1, "ext": 4}
